@@ -940,6 +940,53 @@ func c14EndToEnd(c *Ctx, cases *[]Case, sub func() *rand.Rand) {
 		}()
 	}
 
+	// ---- (5a) the remote's first ARQ frame arrives directly behind CONNECTED, while Dial is still finishing ----
+	for i := 0; i < c.Budget(4, 40) && c.TimeLeft() && c14Hangs < 6; i++ {
+		// serial mode only: there CONNECTED and the data frame travel on ONE ordered stream. Over TCP they use two
+		// sockets, and which of them the host handles first is not defined by the interface.
+		tcp := false
+		banner := c14RandBytes(rng, 1+rng.Intn(300))
+		rep := map[string]interface{}{"mode": map[bool]string{true: "tcp", false: "serial"}[tcp], "banner_len": len(banner), "tnc": "delivers an ARQ frame directly behind the CONNECTED report"}
+		env, err := c14Open(tcp, nil)
+		if err != nil {
+			c.Violate("C14:open-failed", "ardop.Open against the simulated TNC failed: "+err.Error(), rep)
+			continue
+		}
+		func() {
+			defer env.shutdown()
+			env.sim.mu.Lock()
+			env.sim.banner = banner
+			env.sim.mu.Unlock()
+			if err := env.dial(); err != nil {
+				c.Violate("C14:connect-failed:dial", "no connection against the simulated TNC: "+err.Error(), rep)
+				return
+			}
+			tail := c14RandBytes(rng, 1+rng.Intn(50))
+			env.sim.sendData("ARQ", tail)
+			want := append(append([]byte{}, banner...), tail...)
+			var got []byte
+			hang, pv := c14Watch1(c14Watch, func() {
+				buf := make([]byte, 1+rng.Intn(400))
+				env.conn.SetReadDeadline(time.Now().Add(3 * time.Second))
+				for len(got) < len(want) {
+					n, err := env.conn.Read(buf)
+					got = append(got, buf[:n]...)
+					if err != nil {
+						return
+					}
+				}
+			})
+			if hang || pv != nil {
+				c.Violate("C14:read-hang", fmt.Sprintf("conn.Read blocked or panicked (hang=%v panic=%v) although %d ARQ bytes were delivered, the first %d directly behind CONNECTED", hang, pv, len(want), len(banner)), rep)
+				return
+			}
+			if !bytes.Equal(got, want) {
+				c.Violate("C14:stream-differs:early-data", fmt.Sprintf("Read returned %d bytes, the TNC delivered ARQ payloads of %d bytes in total (the first %d directly behind the CONNECTED report); first difference at %d", len(got), len(want), len(banner), firstDiff(got, want)), rep)
+			}
+			c.Res.Distribution["e2e-rx-early-data(oracle only)"]++
+		}()
+	}
+
 	// ---- (5b) back-to-back writes over a SLOW serial link with a TNC that reports BUFFER early ----
 	// The TNC may report BUFFER (for earlier data) as soon as it has seen a data frame's header; Write then
 	// returns while the frame's tail is still going out on the link. Whatever the host does next, every data
@@ -1326,6 +1373,18 @@ func c14Children(c *Ctx, sub func() *rand.Rand) {
 	}
 	cs = append(cs, c14ChildCase{true, "listen", tcpCtrl("CONNECTED"), nil, "tcp listen CONNECTED without parameter", "ctrl-without-parameter"})
 	cs = append(cs, c14ChildCase{true, "none", tcpCtrl("TARGET"), []byte{0, 1, 'x'}, "tcp no connection", "data-count-1"})
+	// a Listen() is active but no connection has come in yet ("listening"): the messages of an inbound connect,
+	// each also without its parameter and in odd orders
+	for _, seq := range [][]string{{"TARGET N0CALL", "CONNECTED"}, {"TARGET", "CONNECTED T3ST 500"}, {"CONNECTED"}, {"TARGET N0CALL", "NEWSTATE IRS", "CONNECTED"},
+		{"CONNECTED T3ST"}, {"CONNECTED  500"}, {"TARGET N0CALL", "CONNECTED T3ST 500", "CONNECTED"}, {"PENDING", "CANCELPENDING", "CONNECTED"}, {"TARGET N0CALL", "DISCONNECTED", "CONNECTED"}} {
+		var ser, tc []byte
+		for _, t := range seq {
+			ser = append(ser, serialCtrl(t)...)
+			tc = append(tc, tcpCtrl(t)...)
+		}
+		cs = append(cs, c14ChildCase{false, "listening", ser, nil, fmt.Sprintf("serial, listening, ctrl %q", seq), "ctrl-without-parameter-while-listening"})
+		cs = append(cs, c14ChildCase{true, "listening", tc, nil, fmt.Sprintf("tcp, listening, ctrl %q", seq), "ctrl-without-parameter-while-listening"})
+	}
 	// random / mutated streams
 	for i := 0; i < c.Budget(40, 600); i++ {
 		tcp := rng.Intn(2) == 0
@@ -1356,7 +1415,7 @@ func c14Children(c *Ctx, sub func() *rand.Rand) {
 				data = c14RandBytes(rng, rng.Intn(80))
 			}
 		}
-		cs = append(cs, c14ChildCase{tcp, []string{"dial", "dial", "listen", "none"}[rng.Intn(4)], ctrl, data, "generated", "generated"})
+		cs = append(cs, c14ChildCase{tcp, []string{"dial", "dial", "listen", "none", "listening"}[rng.Intn(5)], ctrl, data, "generated", "generated"})
 	}
 	// the link to the TNC dies while a data frame is half way out; then one more Write (last: a crash here
 	// must not hide the cases above)
